@@ -48,6 +48,8 @@ def export_family(name, tier, module="Gen_Families"):
             if line:
                 c = json.loads(line)
                 c["id"] = "%s%d.%d" % (name, tier, i)
+                if "ops" in c and "cfg" not in c:
+                    pass
                 if "cfg" in c and isinstance(c["cfg"], dict):
                     c["cfg"]["id"] = c["id"]
                 cfgs.append(c)
